@@ -202,6 +202,13 @@ class Flow:
         g, bound = self._new_helper(node, name, recv)
         if g is None:
             return None
+        r = self._inline_body(g, bound, node, args, kw)
+        if r is None:
+            # a function that is new to the reviewed tree and that could not be followed
+            self.unfollowed = getattr(self, 'unfollowed', []) + [g.site]
+        return r
+
+    def _inline_body(self, g, bound, node, args, kw):
         t = self.tab
         names = g.params()
         if bound and names:
